@@ -34,7 +34,9 @@ TRUSTED = ["model coq/Changelog/Model.v is a hand transcription of Changelog.par
            "coq/Gen/ClChars.v: [-+0-9a-z.] and [-0-9a-z] under re.IGNORECASE, \\w, key.lower() enumerated by the "
            "running interpreter from the class texts found in the source",
            "Python built-ins as modelled in coq/Lib/PyStr.v (split, strip) and in Model.v (re.split on CR/LF, "
-           "text-file iteration)"]
+           "text-file iteration; 'not file.strip()' as 'every character is white space')",
+           "case literals: harness encoder clcommon.cq_lit (packed UTF-8 in 63-bit integers) and decoder "
+           "coq/Changelog/Lit.v declit, compared with coq/Lib/Dec.v dec on sample texts in every run (CLit cases)"]
 ASSUMPTIONS = ["UTF-8 decoding of bytes input is the inverse of encoding (bytes form is modelled as the str)",
                "text-file iteration is modelled for CR-free content only (generator never writes CR to a file)",
                "grammar of C04 (coq/Changelog/Spec.v wf_doc): ASCII package/version/distribution/key classes, "
